@@ -312,3 +312,139 @@ pub fn cmd_supervise(path: &str) {
     for w in sup.workers.iter() { if w.end.is_none() && w.kfd >= 0 { /* the thread stays parked in its epoll; the process ends after the last run */ } }
   }
 }
+
+// --------------------------------------------------------------------------------------------- the static fleet
+// `remap --all-keyboards` (do_remapping_loop_all_devices) and `remap --dev-file ... --only-if-keyboard`
+// (do_remapping_loop_multiple_devices -> filter_devices_verbose), both ending in do_remapping_loop_these_devices: every
+// selected device is opened in list order (the first failing open ends everything), one worker thread per device, the
+// threads are joined in list order. Same namespace, same scripted device nodes as the supervisor runs. The function under
+// test runs in a thread of its own; this thread is the environment: when every worker the function has started has reached
+// its first read (or the function has returned), the workers are told to end in the order the schedule gives
+// (spec/Fleet.tla), one at a time, each awaited until its thread has exited. cases.ndjson: {id, mode: "all" | "files",
+// devs, always, excludes, present: [ids], bad: [ids], files: [paths], ends: [[id, "ok"|"err"]..], devices_file}.
+// Validated by spec/FleetTrace.tla. No judgement here.
+fn fleet_settled() -> bool {
+  // every worker that has its uinput device has reached its first read
+  loop {
+    let pending = with_sup(|s| Some(s.workers.iter().any(|w| w.grabbed && w.wfd >= 0 && w.tid == 0 && w.end.is_none()))).unwrap_or(false);
+    if !pending { return true; }
+    with_sup(|s| { for w in s.workers.iter() { if w.grabbed && w.wfd >= 0 && w.tid == 0 { let one: u64 = 1; unsafe { libc::syscall(libc::SYS_write, w.kfd, &one as *const u64, 8); } } } Some(()) });
+    std::thread::sleep(std::time::Duration::from_millis(1));
+    return false;
+  }
+}
+
+pub fn cmd_fleet(path: &str) {
+  use std::sync::{Arc, atomic::{AtomicBool, Ordering}};
+  let out = std::io::stdout();
+  for line in std::fs::read_to_string(path).unwrap().lines() {
+    if line.trim().is_empty() { continue; }
+    let c: Value = serde_json::from_str(line).unwrap();
+    let devs: Vec<SupDev> = c["devs"].as_array().unwrap().iter().map(|d| SupDev {
+      id: d["id"].as_str().unwrap().to_string(), node: d["node"].as_str().unwrap().to_string(), entry: d["entry"].as_str().unwrap().to_string() }).collect();
+    let n = devs.len();
+    let has = |key: &str, id: &str| c[key].as_array().map(|a| a.iter().any(|x| x.as_str() == Some(id))).unwrap_or(false);
+    let present: Vec<bool> = devs.iter().map(|d| has("present", &d.id)).collect();
+    let badperm: Vec<bool> = devs.iter().map(|d| has("bad", &d.id)).collect();
+    if let Ok(rd) = std::fs::read_dir("/dev/input") { for e in rd.flatten() { let _ = std::fs::remove_file(e.path()); } }
+    for (i, d) in devs.iter().enumerate() { if present[i] { let _ = std::fs::File::create(&d.node); } }
+    // the nodes of the devices that are listed all the time exist as well (a path given with --dev-file must resolve)
+    if let Some(a) = c["always_nodes"].as_array() { for x in a { let _ = std::fs::File::create(x.as_str().unwrap_or("/dev/input/none")); } }
+    let sup = Sup { devs, present, badperm, grab: vec![None; n], always: c["always"].as_str().unwrap_or("").to_string(),
+                    steps: VecDeque::new(), log: vec![], workers: vec![], opening: None, listfail: false, devices_file: c["devices_file"].as_str().unwrap().to_string(),
+                    inotify_fd: -2, touchn: 0, sup_tid: 0 };
+    sup.rewrite_list();
+    *GSUP.lock().unwrap_or_else(|e| e.into_inner()) = Some(sup);
+    let excludes: Vec<String> = c["excludes"].as_array().map(|a| a.iter().map(|x| x.as_str().unwrap_or("").to_string()).collect()).unwrap_or_default();
+    let files: Vec<String> = c["files"].as_array().map(|a| a.iter().map(|x| x.as_str().unwrap_or("").to_string()).collect()).unwrap_or_default();
+    let mode_all = c["mode"].as_str() != Some("files");
+    let finished = Arc::new(AtomicBool::new(false));
+    let fin2 = Arc::clone(&finished);
+    let th = std::thread::spawn(move || {
+      with_sup(|s| { s.sup_tid = gettid(); Some(()) });
+      let layout: Layout = Layout { mappings: vec![] };
+      let exrefs: Vec<&str> = excludes.iter().map(|s| s.as_str()).collect();
+      let frefs: Vec<&str> = files.iter().map(|s| s.as_str()).collect();
+      let r = std::panic::catch_unwind(std::panic::AssertUnwindSafe(|| {
+        if mode_all { crate::remapping_loop::do_remapping_loop_all_devices(&layout, &exrefs, false) }
+        else { crate::remapping_loop::do_remapping_loop_multiple_devices(&frefs, true, &exrefs, &layout, &None, false) }
+      }));
+      fin2.store(true, Ordering::SeqCst);
+      r
+    });
+    let note_ret = |fin: &AtomicBool, noted: &mut bool| { if !*noted && fin.load(Ordering::SeqCst) { *noted = true; with_sup(|s| { s.log.push(json!({"c": "returned"})); Some(()) }); } };
+    let mut noted = false;
+    // (1) the start-up: until the function has returned or all its workers wait for input (and nothing more is opened for 30 ms)
+    let deadline = std::time::Instant::now() + std::time::Duration::from_secs(5);
+    let mut quiet_since = std::time::Instant::now();
+    let mut last_n = usize::MAX;
+    loop {
+      if finished.load(Ordering::SeqCst) || std::time::Instant::now() > deadline { break; }
+      let nw = with_sup(|s| Some(s.workers.len() + s.log.len())).unwrap_or(0);
+      if nw != last_n || !fleet_settled() { last_n = nw; quiet_since = std::time::Instant::now(); }
+      else if quiet_since.elapsed() > std::time::Duration::from_millis(30) && nw > 0 && with_sup(|s| Some(s.opening.is_none())).unwrap_or(true) { break; }
+      std::thread::sleep(std::time::Duration::from_micros(500));
+    }
+    with_sup(|s| { s.log.push(json!({"c": "settled"})); Some(()) });
+    note_ret(&finished, &mut noted);
+    // (2) the workers end in the scheduled order
+    let mut left = 0;
+    for e in c["ends"].as_array().cloned().unwrap_or_default() {
+      let (d, x) = (e[0].as_str().unwrap_or("").to_string(), e[1].as_str().unwrap_or("ok").to_string());
+      let w = with_sup(|s| {
+        let i = s.dev_of(&d)?;
+        let w = (0..s.workers.len()).rev().find(|w| s.workers[*w].dev == i && s.workers[*w].end.is_none() && s.workers[*w].grabbed && s.workers[*w].wfd >= 0 && s.workers[*w].tid != 0)?;
+        s.workers[w].end = Some(if x == "ok" { "ok" } else { "err" });
+        let one: u64 = 1;
+        unsafe { libc::syscall(libc::SYS_write, s.workers[w].kfd, &one as *const u64, 8); }
+        Some(w)
+      });
+      match w {
+        None => { left += 1; with_sup(|s| { s.log.push(json!({"c": "noworker", "d": d})); Some(()) }); },
+        Some(w) => {
+          let deadline = std::time::Instant::now() + std::time::Duration::from_secs(5);
+          loop {
+            let tid = with_sup(|s| Some(s.workers[w].tid)).unwrap_or(0);
+            if tid != 0 && !task_alive(tid) { break; }
+            if std::time::Instant::now() > deadline { break; }
+            std::thread::sleep(std::time::Duration::from_micros(300));
+          }
+          with_sup(|s| {
+            let tid = s.workers[w].tid;
+            let exited = tid != 0 && !task_alive(tid);
+            s.workers[w].exited = exited;
+            s.log.push(json!({"c": "wend", "w": w + 1, "d": d, "res": s.workers[w].end.unwrap_or(""), "exited": exited}));
+            Some(())
+          });
+          // give the function a moment to notice (it is logged where it is first seen to have returned; later is not held against it)
+          let t = std::time::Instant::now();
+          while !finished.load(Ordering::SeqCst) && t.elapsed() < std::time::Duration::from_millis(15) { std::thread::sleep(std::time::Duration::from_micros(300)); }
+          note_ret(&finished, &mut noted);
+        }
+      }
+    }
+    // (3) the function must have returned by now (every worker the schedule knows of has ended); wait for it, then force the rest
+    let t = std::time::Instant::now();
+    while !finished.load(Ordering::SeqCst) && t.elapsed() < std::time::Duration::from_millis(1500) { std::thread::sleep(std::time::Duration::from_millis(1)); }
+    note_ret(&finished, &mut noted);
+    let hang = !finished.load(Ordering::SeqCst);
+    if hang {
+      with_sup(|s| {
+        s.log.push(json!({"c": "hang"}));
+        for w in 0..s.workers.len() { if s.workers[w].end.is_none() { s.workers[w].end = Some("ok"); let one: u64 = 1; unsafe { libc::syscall(libc::SYS_write, s.workers[w].kfd, &one as *const u64, 8); } } }
+        Some(())
+      });
+    }
+    let r = th.join().unwrap_or_else(|e| Err(e));
+    // workers the function left running when it returned: their devices go away now, so that the threads end
+    with_sup(|s| { for w in 0..s.workers.len() { if s.workers[w].end.is_none() { s.workers[w].end = Some("ok"); let one: u64 = 1; unsafe { libc::syscall(libc::SYS_write, s.workers[w].kfd, &one as *const u64, 8); } } } Some(()) });
+    std::thread::sleep(std::time::Duration::from_millis(2));
+    let sup = GSUP.lock().unwrap_or_else(|e| e.into_inner()).take().unwrap();
+    let (ret, text) = match r { Ok(Ok(())) => ("ok", String::new()), Ok(Err(e)) => ("err", e), Err(e) => ("panic", panic_msg(e)) };
+    let mut o = out.lock();
+    writeln!(o, "{}", json!({"c": "reset", "id": c["id"], "mode": if mode_all { "all" } else { "files" }, "devs": sup.devs.iter().map(|d| d.id.clone()).collect::<Vec<_>>(),
+                             "present": c["present"], "bad": c["bad"], "given": c["given"]})).unwrap();
+    for rec in sup.log.iter() { writeln!(o, "{}", rec).unwrap(); }
+    writeln!(o, "{}", json!({"c": "ret", "res": ret, "text": text.chars().take(200).collect::<String>(), "left": left, "hang": hang})).unwrap();
+  }
+}
